@@ -269,6 +269,83 @@ def c14_previous_run(r: int, swap: int) -> bool:
     return ok
 
 
+VARIANTS = ["absent", "same", "crlf", "cr", "garbage", "truncated", "extended", "blank-padded"]
+
+
+def _variant(data, v):
+    if v == 2:
+        return data.replace(b"\n", b"\r\n")
+    if v == 3:
+        return data.replace(b"\n", b"\r")
+    if v == 4:
+        return b"// stale\n" * 7
+    if v == 5:
+        return data[:len(data) // 2]
+    if v == 6:
+        return data + b"// trailing\n"
+    if v == 7:
+        return data.replace(b"\n", b" \n")
+    return data
+
+
+def _run_entry(entry, boost, root):
+    """run one entry point writing below `root` (a real directory); returns {relative path: bytes}"""
+    import shutil
+    srcs = [os.path.join(DATA, n) for n in ("main.i", "part_a.i")]
+    cwd = os.getcwd()
+    try:
+        if entry == 0:
+            w = PybindWrapper(module_name="mod", top_module_namespaces=[''], use_boost_serialization=bool(boost), ignore_classes=[''], module_template=tpl())
+            w.wrap(list(srcs), os.path.join(root, "out.cpp"))
+        elif entry == 1:
+            os.chdir(root)
+            w = PybindWrapper(module_name="mod", top_module_namespaces=[''], use_boost_serialization=bool(boost), ignore_classes=[''], module_template=tpl())
+            w.wrap_submodule(srcs[1])
+        else:
+            os.chdir(root)
+            w = MatlabWrapper(module_name="mod", top_module_namespace=[''], ignore_classes=[''], use_boost_serialization=bool(boost))
+            w.wrap([srcs[0]], path="tb")
+    finally:
+        os.chdir(cwd)
+    out = {}
+    for d, _dirs, fs in os.walk(root):
+        for f in fs:
+            full = os.path.join(d, f)
+            with open(full, "rb") as fh:
+                out[os.path.relpath(full, root)] = fh.read()
+    return out
+
+
+def c14_existing_output(entry: int, v: int, boost: int) -> bool:
+    """
+    The bytes left at every output path do not depend on what the path held before the run: absent, the same
+    output, the same output with CRLF / lone-CR line ends, blank-padded lines, unrelated text, a truncated or an extended copy.
+    (real temporary directory, removed afterwards)
+    pre: 0 <= entry <= 2 and 0 <= v < len(VARIANTS) and 0 <= boost <= 1
+    post: _
+    """
+    entry, v, boost = pick(entry, 0, 3), pick(v, 0, len(VARIANTS)), pick(boost, 0, 2)
+    with concrete():
+        import shutil
+        import tempfile
+        a, b = tempfile.mkdtemp(prefix="c14_"), tempfile.mkdtemp(prefix="c14_")
+        try:
+            fresh = _run_entry(entry, boost, a)
+            if v:
+                for rel, data in fresh.items():
+                    os.makedirs(os.path.dirname(os.path.join(b, rel)), exist_ok=True)
+                    with open(os.path.join(b, rel), "wb") as fh:
+                        fh.write(_variant(data, v))
+            again = _run_entry(entry, boost, b)
+        finally:
+            shutil.rmtree(a, ignore_errors=True)
+            shutil.rmtree(b, ignore_errors=True)
+        bad = [k for k in fresh if again.get(k) != fresh[k]] + [k for k in again if k not in fresh]
+        ok = (bool(fresh) and not bad) or _fail(entry=entry, previous_content=VARIANTS[v], files=bad[:4], fresh_files=sorted(fresh)[:4])
+    reached({"entry": entry, "previous": VARIANTS[v]})
+    return ok
+
+
 def c14_repeat_fresh(t: int, boost: int) -> bool:
     """
     Two fresh wrappers of each kind on the same text give identical results (no module-level state).
@@ -298,5 +375,7 @@ def conds(tier):
         xh.Cond(M, "c14_footprint", t(200, 900), kind=sb, examples=["which=0, boost=1, nfiles=3", "which=2, boost=0, nfiles=2"], bounds="3 entry points x serialization x 1-3 source files"),
         xh.Cond(M, "c14_source_order", t(120, 600), kind=sb, examples=["perm=0, boost=0", "perm=5, boost=1"], bounds="6 permutations of 3 additional files x serialization"),
         xh.Cond(M, "c14_previous_run", t(120, 600), kind=sb, examples=["r=0, swap=0", "r=2, swap=1"], bounds="%d revision pairs (same-length edits) x both orders, MATLAB output directory kept between the two runs" % len(REVISIONS)),
+        xh.Cond(M, "c14_existing_output", t(200, 600), kind=sb, examples=["entry=0, v=2, boost=0", "entry=1, v=3, boost=1", "entry=2, v=2, boost=0", "entry=0, v=0, boost=1"],
+                bounds="3 entry points x %d previous contents of every output path x serialization (real temporary directory)" % len(VARIANTS)),
         xh.Cond(M, "c14_repeat_fresh", t(120, 600), kind=sb, examples=["t=2, boost=1"], bounds="%d texts x serialization" % NT),
     ]
